@@ -131,11 +131,22 @@ def not_nan(x):
 #   count     : the result holds exactly `count` rewards and `count` feature rows of unchanged trailing shape
 #   pairs     : there is an injective idx : [0, count) -> [0, B + count) with result.rewards[t] == ALL.rewards[idx t] and
 #               result.features[t] == ALL.features[idx t]   (the same index selects reward and features)
-#   topk      : every pair that is not selected has a reward <= every selected reward, NaN counting as the lowest reward
-#   monotone  : for every old best reward there is a new best reward that is at least as large (best never decreases)
+#   topk      : rank(r) = -inf if r is NaN else r.  Every pair that is not selected has a rank <= the rank of every selected
+#               pair: the result is the top `count` of the non-NaN rewards, NaN entries (ranked as -inf) only fill up
+#   monotone  : for every old best reward there is a new best reward of at least its rank (the best real reward never decreases)
+# While the finding `nan_ranked_best` is open AND reproduces, topk / monotone are stated as residuals (unless a selected reward is NaN).
 UBR = 'VectorizedOptimizer._update_best_results'
 F_NAN = ('_update_best_results ranks a NaN reward as the BEST: jnp.argpartition(-all_rewards, count-1) sorts a sign-negated NaN '
          'first, so candidates whose score is NaN displace every real candidate and are returned as the best results')
+
+
+def rank(x):
+    """NaN is not a number: it ranks as -inf."""
+    return z3.If(X.is_nan(x), X.ninf, x)
+
+
+NAN_FINDING_ACTIVE = [False]       # set by main(): the finding is listed open and its witness reproduces on the current tree
+STRONG_MERGE = [True]              # the full (rank-based) top-k contract of _update_best_results was proved in section A
 
 
 def ubr_entry(concrete=None):
@@ -206,20 +217,21 @@ def ubr_post(path):
                     continue
                 for t in range(k):
                     a, b = rr.at(t), allr(z3.IntVal(j))
-                    good = z3.Or(X.is_nan(b), z3.And(not_nan(a), X.ge(a, b)))
+                    good = X.ge(rank(a), rank(b))
                     cs.append(z3.Or(good, X.is_nan(a)) if residual else good)
             return z3.And(*cs) if cs else z3.BoolVal(True)
         if z3.is_true(z3.simplify(ok_shape)):
             out.append(('C19._update_best_results.pairs', z3.Or(*[pairs(m) for m in maps])))
             out.append(('C19._update_best_results.topk', z3.Or(*[z3.And(pairs(m), topk(m, False)) for m in maps])))
-            out.append(('C19._update_best_results.topk.residual', z3.Or(*[z3.And(pairs(m), topk(m, True)) for m in maps])))
             mono, mono_res = [], []
             for t0 in range(k):
                 o = c['best'].attrs['rewards'].at(t0)
-                mono.append(z3.Or(X.is_nan(o), *[z3.And(not_nan(rr.at(t)), X.ge(rr.at(t), o)) for t in range(k)]))
-                mono_res.append(z3.Or(X.is_nan(o), *[z3.Or(X.is_nan(rr.at(t)), X.ge(rr.at(t), o)) for t in range(k)]))
+                mono.append(z3.Or(*[X.ge(rank(rr.at(t)), rank(o)) for t in range(k)]))
+                mono_res.append(z3.Or(*[z3.Or(X.is_nan(rr.at(t)), X.ge(rank(rr.at(t)), rank(o))) for t in range(k)]))
             out.append(('C19._update_best_results.best_never_decreases', z3.And(*mono)))
-            out.append(('C19._update_best_results.best_never_decreases.residual', z3.And(*mono_res)))
+            if NAN_FINDING_ACTIVE[0]:
+                out.append(('C19._update_best_results.topk.residual', z3.Or(*[z3.And(pairs(m), topk(m, True)) for m in maps])))
+                out.append(('C19._update_best_results.best_never_decreases.residual', z3.And(*mono_res)))
         return out
     if not parts:
         # no selection permutation recorded by the argpartition contract: nothing to instantiate the witness with
@@ -238,17 +250,18 @@ def ubr_post(path):
     j = sk(run, 'j')
     unsel = z3.And(rng(j, N), z3.Not(z3.And(rng(q(j), count), p(q(j)) == j)))       # j is not in the image of idx on [0, count)
     a, b = rr.at(t), allr(j)
-    good = z3.Or(X.is_nan(b), z3.And(not_nan(a), X.ge(a, b)))
+    good = X.ge(rank(a), rank(b))
     out.append(('C19._update_best_results.topk', z3.Implies(z3.And(rng(t, count), unsel), good)))
-    out.append(('C19._update_best_results.topk.residual', z3.Implies(z3.And(rng(t, count), unsel), z3.Or(good, X.is_nan(a)))))
+    if NAN_FINDING_ACTIVE[0]:
+        out.append(('C19._update_best_results.topk.residual', z3.Implies(z3.And(rng(t, count), unsel), z3.Or(good, X.is_nan(a)))))
     out.append(('C19._update_best_results.pairs.inverse_on_selected', z3.Implies(z3.And(rng(t, count), rng(j, N), p(t) == j), z3.And(rng(q(j), count), p(q(j)) == j))))
     o = c['best'].attrs['rewards'].at(t)
     wit = z3.If(rng(q(zi(B) + t), count), q(zi(B) + t), z3.IntVal(0))
-    out.append(('C19._update_best_results.best_never_decreases',
-                z3.Implies(rng(t, count), z3.Or(X.is_nan(o), z3.And(not_nan(rr.at(wit)), X.ge(rr.at(wit), o))))))
-    # residual of the NaN finding: the same clause unless the selected reward it talks about is NaN
-    out.append(('C19._update_best_results.best_never_decreases.residual',
-                z3.Implies(rng(t, count), z3.Or(X.is_nan(o), X.is_nan(rr.at(wit)), X.ge(rr.at(wit), o)))))
+    out.append(('C19._update_best_results.best_never_decreases', z3.Implies(rng(t, count), X.ge(rank(rr.at(wit)), rank(o)))))
+    if NAN_FINDING_ACTIVE[0]:
+        # residual of the NaN finding: the same clause unless the selected reward it talks about is NaN
+        out.append(('C19._update_best_results.best_never_decreases.residual',
+                    z3.Implies(rng(t, count), z3.Or(X.is_nan(rr.at(wit)), X.ge(rank(rr.at(wit)), rank(o))))))
     return out
 
 
@@ -362,7 +375,7 @@ def call_entry(concrete=None, use_fori=True, prior=True, parallel=True, seeded=T
         ctx = CallCtx(d)
         run.c19 = ctx
         ctx.track_evaluated = track_evaluated
-        if track_evaluated:
+        if track_evaluated and not STRONG_MERGE[0]:
             rho = z3.Const('rho!nn', Row)
             run.axiom(z3.ForAll([rho], z3.Not(X.is_nan(SCORE(rho))), patterns=[SCORE(rho)]))      # hypothesis of this clause: no NaN scores
         if concrete is not None and not track_evaluated:
@@ -417,8 +430,10 @@ def ubr_model(it, args, kw):
     rr = JArr((count,), 'float', lambda t: allr(idx(t)))
     rc = JArr((count,) + tuple(cont_of(bf).shape[1:]), 'float', lambda t, p, e: allc(idx(t), p, e))
     rk = JArr((count,) + tuple(cat_of(bf).shape[1:]), 'int', lambda t, p, e: allk(idx(t), p, e))
-    topk = lambda t, j: z3.Implies(z3.And(rng(t, cnt), rng(j, N), z3.Not(sel(j))),
-                                   z3.Or(X.is_nan(allr(j)), X.is_nan(rr.at(t)), X.ge(rr.at(t), allr(j))))
+    if STRONG_MERGE[0]:
+        topk = lambda t, j: z3.Implies(z3.And(rng(t, cnt), rng(j, N), z3.Not(sel(j))), X.ge(rank(rr.at(t)), rank(allr(j))))
+    else:       # only the residual of the NaN finding is available
+        topk = lambda t, j: z3.Implies(z3.And(rng(t, cnt), rng(j, N), z3.Not(sel(j))), z3.Or(X.is_nan(rr.at(t)), X.ge(rank(rr.at(t)), rank(allr(j)))))
     J.fact(it, J.ALL(2, topk, shape=(count, J.norm(N)), pats=lambda t, j: z3.MultiPattern(idx(t), inv(j))))
     rec = {'idx': idx, 'inv': inv, 'B': B, 'count': count, 'allr': allr, 'sel': sel, 'old': best, 'newf': newf, 'newr': newr, 'topk': topk}
     run.__dict__.setdefault('c19_merges', []).append(rec)
@@ -511,7 +526,8 @@ def call_invariant(it, carry, i, ctx):
         else:
             Ev0, sc, m = ctx['Ev_head'], cc.score_calls[-1], carry[1].merge
             Ev = lambda rho: z3.Or(Ev0(rho), QE(sc['n'], lambda k: rho == sc['rows'](k)))
-        dom = lambda rho: z3.Implies(Ev(rho), X.ge(rr.at(0), SCORE(rho)))
+        above = (lambda rho: X.ge(rank(rr.at(0)), rank(SCORE(rho)))) if STRONG_MERGE[0] else (lambda rho: X.ge(rr.at(0), SCORE(rho)))
+        dom = lambda rho: z3.Implies(Ev(rho), above(rho))
         if phase == 'preserve':
             m, sc = carry[1].merge, cc.score_calls[-1]
             Bz = zi(m['B'])
@@ -519,7 +535,7 @@ def call_invariant(it, carry, i, ctx):
             # instances of the (assumed, proved in section A) top-k fact of the merge contract at the indices this step talks about
             hints = lambda rho: z3.And(m['topk'](z3.IntVal(0), Bz), z3.Implies(z3.And(rng(k0, sc['n']), rho == sc['rows'](k0)), m['topk'](z3.IntVal(0), k0)),
                                        ctx['Ev_head'](rho) == ctx['Ev_head'](rho))
-            body = lambda rho: z3.Implies(hints(rho), z3.Implies(z3.Or(ctx['Ev_head'](rho), z3.And(rng(k0, sc['n']), rho == sc['rows'](k0))), X.ge(rr.at(0), SCORE(rho))))
+            body = lambda rho: z3.Implies(hints(rho), z3.Implies(z3.Or(ctx['Ev_head'](rho), z3.And(rng(k0, sc['n']), rho == sc['rows'](k0))), above(rho)))
             cl.append(RowClause('dominates_every_evaluated_row[count=1]', body, lambda rho: SCORE(rho)))
         else:
             cl.append(RowClause('dominates_every_evaluated_row[count=1]', dom, (lambda rho: Ev(rho)) if phase != 'init' else (lambda rho: SCORE(rho))))
@@ -529,8 +545,11 @@ def call_invariant(it, carry, i, ctx):
         m = carry[1].merge
         inv, Bz = m['inv'], zi(m['B'])
         wit = lambda t: z3.If(m['sel'](Bz + t), inv(Bz + t), z3.IntVal(0))
-        cl.append(Clause('best_reward_never_decreases.residual', (count,),
-                         lambda t: z3.Or(X.is_nan(old.at(t)), X.is_nan(rr.at(wit(t))), X.ge(rr.at(wit(t)), old.at(t)))))
+        if STRONG_MERGE[0]:
+            cl.append(Clause('best_reward_never_decreases', (count,), lambda t: X.ge(rank(rr.at(wit(t))), rank(old.at(t)))))
+        else:
+            cl.append(Clause('best_reward_never_decreases.residual', (count,),
+                             lambda t: z3.Or(X.is_nan(rr.at(wit(t))), X.ge(rank(rr.at(wit(t))), rank(old.at(t))))))
     return cl
 
 
@@ -716,7 +735,10 @@ def call_post(path):
         out.append((N + 'reward_is_score_of_candidate', z3.Implies(rng(t, count), z3.And(ev(t), evaluated(t)))))
     if getattr(cc, 'track_evaluated', False) and getattr(cc, 'Ev', None) is not None:
         rho = run.fresh('sk_row', Row)
-        out.append((N + 'returns_the_best_evaluated_row[count=1,score_never_nan]', z3.Implies(cc.Ev(rho), X.ge(rr.at(0), SCORE(rho)))))
+        if STRONG_MERGE[0]:
+            out.append((N + 'returns_the_best_evaluated_row[count=1]', z3.Implies(cc.Ev(rho), X.ge(rank(rr.at(0)), rank(SCORE(rho))))))
+        else:
+            out.append((N + 'returns_the_best_evaluated_row[count=1,score_never_nan]', z3.Implies(cc.Ev(rho), X.ge(rr.at(0), SCORE(rho)))))
     out += call_sites(path, (rr, rc, rk))
     if cc.kw.get('score_with_aux_fn') is not None:
         ax = [s for s in cc.score_calls if s['aux']]
@@ -740,18 +762,28 @@ class Prover:
         self.timeout_ms = 6000 if tier == 'quick' else 30000
         self.observer = None
 
+    @staticmethod
+    def discharge(run, f, npc, nax, budget_ms):
+        """z3 resource-limit budget (deterministic: budget_ms * 2500 rlimit units); the wall clock is only a >= 20x safety net.
+        An `unknown` is retried once in a fresh solver context with three times the budget."""
+        v, m, dt = E.discharge(run, f, npc, nax, timeout_ms=max(2 * budget_ms, 6000), rlimit=int(budget_ms) * 2500)
+        if v == 'unknown':
+            v, m, dt2 = E.discharge(run, f, npc, nax, timeout_ms=max(6 * budget_ms, 6000), rlimit=int(budget_ms) * 7500)
+            dt += dt2
+        return v, m, dt
+
     def _collect(self, entries, post, skip=(), setup=None, timeout_ms=None, want_model=False):
         inst, unsupported = {}, []
         for label, entry in entries:
             if setup is not None:
                 setup(label)
-            for pi, p in enumerate(E.explore(entry, max_paths=400, timeout_ms=1500, deadline_s=120)):
+            for pi, p in enumerate(E.explore(entry, max_paths=400, timeout_ms=1500)):
                 if p.kind == 'unsupported':
                     unsupported.append('%s: %s' % (label, p.describe()))
                     continue
                 if self.observer is not None and not want_model:
                     self.observer(label, p)
-                v0, _, _ = E.discharge(p.run, z3.BoolVal(False), timeout_ms=250)      # vacuity: inconsistent assumptions show up at once
+                v0, _, _ = E.discharge(p.run, z3.BoolVal(False), timeout_ms=6000, rlimit=250 * 2500)      # vacuity: inconsistent assumptions show up at once
                 vacuous = v0 == 'unsat'
                 obs = [(n, f, npc, nax) for (n, f, npc, nax, info) in p.run.obligations]
                 if post is not None and p.kind in ('return', 'raise', 'end') and not vacuous:
@@ -765,7 +797,7 @@ class Prover:
                         continue
                     if isinstance(f, bool):
                         f = z3.BoolVal(f)
-                    v, m, dt = E.discharge(p.run, f, npc, nax, timeout_ms=timeout_ms or self.timeout_ms)
+                    v, m, dt = self.discharge(p.run, f, npc, nax, timeout_ms or self.timeout_ms)
                     rec = {'v': v, 'dt': dt, 'label': label, 'kind': p.kind}
                     if v == 'sat' and want_model:
                         rec['model'], rec['run'], rec['path'] = m, p.run, p
@@ -780,6 +812,7 @@ class Prover:
         return inst, unsupported
 
     def run(self, fname, entries, post, twins=(), setup=None, twin_setup=None, findings=None, replay=None, rename=None, only=None):
+        findings = dict(findings or {})
         """findings: {obligation name: finding description}; replay(name, rec) -> (replay dict, reproduced)"""
         t_run = time.time()
         try:
@@ -808,10 +841,10 @@ class Prover:
             for label, entry in twins[:1]:
                 if twin_setup or setup:
                     (twin_setup or setup)(label)
-                for pi, p in enumerate(E.explore(entry, max_paths=60, timeout_ms=1500, deadline_s=60)):
+                for pi, p in enumerate(E.explore(entry, max_paths=60, timeout_ms=1500)):
                     if p.kind == 'unsupported':
                         continue
-                    v0, _, _ = E.discharge(p.run, z3.BoolVal(False), timeout_ms=5000)
+                    v0, _, _ = E.discharge(p.run, z3.BoolVal(False), timeout_ms=10000, rlimit=5000 * 2500)
                     if v0 == 'unsat':
                         chk.obligation('%s.vacuity' % fname, fname, 'checker', report.ERROR, 0.0,
                                        detail='the assumptions of the contract are inconsistent on the concrete shapes %s' % label)
@@ -822,7 +855,10 @@ class Prover:
             tl = tw.get(n, [])
             sats = [i for i in tl if i['v'] == 'sat']
             if n in findings:
-                if sats or not twins:
+                if n in UNVERIFIED:
+                    detail['reason'] = 'recorded open finding whose native witness could not be run (%s): neither counted nor dismissed' % UNVERIFIED[n]
+                    chk.obligation(name, fname, 'native witness', report.UNDECIDED, tsum, detail=detail)
+                elif sats or not twins:
                     chk.obligation(name, fname, 'z3 (concrete-shape twin)', report.KNOWN, tsum, detail=detail, finding=findings[n])
                 elif tl and all(i['v'] == 'unsat' for i in tl):
                     stale[n] = findings[n]
@@ -1372,7 +1408,7 @@ def factory_post(path):
 
 
 # ------------------------------------------------------------------------------------------ native replay
-def run_native(script, args, payload=None, timeout=600):
+def run_native(script, args, payload=None, timeout=3600):
     env = dict(os.environ)
     env['VERIF_REPO'] = source.REPO
     try:
@@ -1429,7 +1465,7 @@ CLAUSE_OF = {     # obligation-name fragment -> clause name checked by the nativ
 def battery_replay(name, rec):
     """directed native search: the end-to-end battery on the real optimizer; reproduced iff the clause this obligation feeds fails."""
     if 'res' not in BATTERY:
-        BATTERY['res'] = run_native(REPLAY, ['battery'] + (['quick'] if BATTERY.get('tier') == 'quick' else []), timeout=1800)
+        BATTERY['res'] = run_native(REPLAY, ['battery'] + (['quick'] if BATTERY.get('tier') == 'quick' else []), timeout=7200)
     res = BATTERY['res']
     if 'violated' not in res:
         return {'driver': 'replay/c19_replay.py battery', 'native': res}, None
@@ -1528,10 +1564,10 @@ def start_conformance(tier):
 
 def finish_conformance(chk, proc, tier):
     try:
-        out, err = proc.communicate(timeout=600)
+        out, err = proc.communicate(timeout=3600)
     except subprocess.TimeoutExpired:
         proc.kill()
-        chk.error('C19.conformance', 'the native conformance test timed out')
+        chk.error('C19.conformance', 'the native conformance test timed out (not a verdict)')
         return
     res = None
     for line in reversed((out or '').strip().splitlines()):
@@ -1577,11 +1613,75 @@ FINDINGS = {
 }
 
 
+WITNESS = {}         # witness name -> True (reproduces on the current tree) | False | None (could not be run)
+UNVERIFIED = {}      # obligation -> reason
+_NOTED = set()
+
+
+def witness_name(f):
+    args = (f.get('witness') or {}).get('args') or []
+    return args[1] if len(args) > 1 and args[0] == 'witness' else None
+
+
+def start_witnesses(chk):
+    names = sorted({witness_name(f) for f in chk.findings if f.get('status', 'open') == 'open' and witness_name(f)})
+    if not names:
+        return None, names
+    env = dict(os.environ)
+    env['VERIF_REPO'] = source.REPO
+    return subprocess.Popen([VENV_PY, REPLAY, 'witness'] + names, stdout=subprocess.PIPE, stderr=subprocess.PIPE, text=True, env=env, cwd=VERIF), names
+
+
+def finish_witnesses(proc, names):
+    WITNESS.clear()
+    UNVERIFIED.clear()
+    _NOTED.clear()
+    for n in names:
+        WITNESS[n] = None
+    if proc is None:
+        return
+    try:
+        out, err = proc.communicate(timeout=3600)
+    except subprocess.TimeoutExpired:
+        proc.kill()
+        return
+    for line in reversed((out or '').strip().splitlines()):
+        if line.startswith('{'):
+            try:
+                res = json.loads(line)
+            except ValueError:
+                break
+            for n in names:
+                r = res.get(n)
+                if isinstance(r, dict) and isinstance(r.get('reproduced'), bool):
+                    WITNESS[n] = r['reproduced']
+            break
+
+
+def active_finding(chk, name):
+    """the recorded finding of obligation `name` iff it is listed OPEN and its witness reproduces on the current tree.
+    Listed open but not reproducing: a plain NOTE, the full obligation is attempted.  Witness not runnable: UNVERIFIED."""
+    f = chk.finding_for(name)
+    if f is None:
+        return None
+    w = witness_name(f)
+    st = WITNESS.get(w) if w else None
+    if st is True:
+        return f
+    if st is False:
+        if name not in _NOTED:
+            _NOTED.add(name)
+            print('NOTE: known finding no longer reproduced on the current tree (stale, witness %s): property=C19 obligation=%s' % (w, name))
+        return None
+    UNVERIFIED[name] = 'witness %s' % w
+    return f
+
+
 def open_findings(chk, names):
-    """the recorded OPEN findings among `names` (known_findings.d/C19.json); a finding that is not recorded is never assumed."""
+    """the ACTIVE findings among `names`: listed open in known_findings.d/C19.json and reproduced natively in this run."""
     out = {}
     for n in names:
-        f = chk.finding_for(n)
+        f = active_finding(chk, n)
         if f is not None:
             out[n] = f.get('what', FINDINGS.get(n, n))
     return out
@@ -1603,11 +1703,14 @@ def nan_obligations(chk, pv, modes, classes):
             chk.obligation(name, fn, 'value classes', report.UNDECIDED, 0.0, detail=dict(detail, reason='no returned features on some path'))
             continue
         free = all('nan' not in ks for ks in kss)
-        finding = chk.finding_for(name)
+        finding = active_finding(chk, name)
         if free:
-            if finding is not None:
+            if finding is not None and name not in UNVERIFIED:
                 print('NOTE: known finding no longer reproduced by the check (stale): property=C19 obligation=%s' % name)
             chk.obligation(name, fn, 'value classes (z3-derived transformers)', report.PROVED, time.time() - t0, detail=detail)
+            continue
+        if finding is not None and name in UNVERIFIED:
+            chk.obligation(name, fn, 'native witness', report.UNDECIDED, 0.0, detail=dict(detail, reason='recorded open finding whose native witness could not be run'))
             continue
         if finding is not None:
             chk.obligation(name, fn, 'value classes (z3-derived transformers)', report.KNOWN, 0.0, detail=detail, finding=finding.get('what', F_RANDNORM))
@@ -1679,6 +1782,7 @@ def main(tier):
                                  'fori_loop by invariant on the real body function, vmap point-wise); obligations discharged by z3; NaN-freedom by '
                                  'value-class abstract interpretation with z3-derived transformers; determinism by read-frame analysis; open '
                                  'obligations are decided on concrete shapes (quantifier-free, loops unrolled) and replayed natively')
+    wproc, wnames = start_witnesses(chk)
     proc = start_conformance(tier)
     for t in J.TRUST:
         chk.trust(t)
@@ -1707,10 +1811,41 @@ def main(tier):
     BATTERY.clear()
     BATTERY['tier'] = tier
 
+    # (the sections that do not depend on recorded findings run first, while the native witnesses of the open findings are replayed)
+    # ---- C. Eagle strategy meets the interface contract and keeps its state invariant
+    ctw = {'pool': 2, 'B': 1, 'P': 1, 'Dc': 1, 'Dk': 1, 'nc': 1, 'nk': 1, 'K': 2, 'n': 2, 'Nb': 3}
+    pv.run('DefaultProjection.__call__', [('symbolic', projection_entry())], projection_post, twins=[('concrete', projection_entry(ctw))], replay=battery_replay)
+    pv.run('DefaultRandomSampler.__call__', [('symbolic', sampler_entry())], sampler_post, twins=[('concrete', sampler_entry(ctw))], replay=battery_replay)
+    modes = [('MEAN', 'ADDITIVE'), ('RANDOM', 'ADDITIVE'), ('UNNORMALIZED', 'MULTIPLICATIVE')] if quick else \
+        [(a, b) for a in ('MEAN', 'RANDOM', 'UNNORMALIZED') for b in ('ADDITIVE', 'MULTIPLICATIVE')]
+    classes = {}
+
+    def observe(label, path):
+        if label.startswith('suggest['):
+            ks = suggest_classes(path)
+            classes.setdefault(label, []).append(ks)
+    pv.observer = observe
+    pv.run(EAGLE + '.suggest', [('suggest[%s,%s]' % m, suggest_entry(None, *m)) for m in modes], suggest_post,
+           twins=[('suggest[%s,%s] concrete' % m, suggest_entry(ctw, *m)) for m in modes[:2]], replay=battery_replay)
+    pv.observer = None
+    pv.run(EAGLE + '.update', [('update[%s,%s]' % m, update_entry(None, *m)) for m in modes[:1]], state_post('C19.eagle.update.'),
+           twins=[('concrete', update_entry(ctw))], replay=battery_replay)
+    pv.run(EAGLE + '.init_state', [('no prior', init_entry()), ('prior', init_entry(prior=True))], state_post('C19.eagle.init_state.'),
+           twins=[('no prior concrete', init_entry(ctw)), ('prior concrete', init_entry(ctw, prior=True))], replay=battery_replay)
+
+    # ---- E. determinism
+    frame_obligations(chk)
+    # ---- recorded findings count only if listed open AND reproduced natively on the current tree
+    finish_witnesses(wproc, wnames)
     # ---- A. _update_best_results (real code, full functional contract)
     known_a = open_findings(chk, ['C19._update_best_results.topk', 'C19._update_best_results.best_never_decreases'])
+    NAN_FINDING_ACTIVE[0] = bool(known_a)
     twins_a = [('count=%d,B=%d' % (c, b), ubr_entry({'count': c, 'B': b, 'P': 1, 'Dc': 1, 'Dk': 1})) for c, b in ((2, 2), (1, 1), (2, 1))]
     pv.run(UBR, [('symbolic', ubr_entry())], ubr_post, twins=twins_a, findings=known_a, replay=ubr_replay)
+    res_a = {o['obligation']: o['result'] for o in chk.obligations if o['obligation'].startswith('C19._update_best_results.')}
+    STRONG_MERGE[0] = bool(res_a) and all(r == report.PROVED for n, r in res_a.items() if not n.endswith('.residual'))
+    chk.note('Section B uses the %s top-k contract of _update_best_results (what section A proved on this tree). '
+             % ('full rank-based' if STRONG_MERGE[0] else 'residual (NaN finding open)'))
 
     # ---- B. __call__ against the strategy interface contract, with the contract of A as the model of _update_best_results
     E.MODELS[UBR_KEY] = ubr_model
@@ -1732,28 +1867,7 @@ def main(tier):
     finally:
         E.MODELS.pop(UBR_KEY, None)
 
-    # ---- C. Eagle strategy meets the interface contract and keeps its state invariant
-    ctw = {'pool': 2, 'B': 1, 'P': 1, 'Dc': 1, 'Dk': 1, 'nc': 1, 'nk': 1, 'K': 2, 'n': 2, 'Nb': 3}
-    pv.run('DefaultProjection.__call__', [('symbolic', projection_entry())], projection_post, twins=[('concrete', projection_entry(ctw))], replay=battery_replay)
-    pv.run('DefaultRandomSampler.__call__', [('symbolic', sampler_entry())], sampler_post, twins=[('concrete', sampler_entry(ctw))], replay=battery_replay)
-    modes = [('MEAN', 'ADDITIVE'), ('RANDOM', 'ADDITIVE'), ('UNNORMALIZED', 'MULTIPLICATIVE')] if quick else \
-        [(a, b) for a in ('MEAN', 'RANDOM', 'UNNORMALIZED') for b in ('ADDITIVE', 'MULTIPLICATIVE')]
-    classes = {}
-
-    def observe(label, path):
-        if label.startswith('suggest['):
-            ks = suggest_classes(path)
-            classes.setdefault(label, []).append(ks)
-    pv.observer = observe
-    pv.run(EAGLE + '.suggest', [('suggest[%s,%s]' % m, suggest_entry(None, *m)) for m in modes], suggest_post,
-           twins=[('suggest[%s,%s] concrete' % m, suggest_entry(ctw, *m)) for m in modes[:2]], replay=battery_replay)
-    pv.observer = None
     nan_obligations(chk, pv, modes, classes)
-    pv.run(EAGLE + '.update', [('update[%s,%s]' % m, update_entry(None, *m)) for m in modes[:1]], state_post('C19.eagle.update.'),
-           twins=[('concrete', update_entry(ctw))], replay=battery_replay)
-    pv.run(EAGLE + '.init_state', [('no prior', init_entry()), ('prior', init_entry(prior=True))], state_post('C19.eagle.init_state.'),
-           twins=[('no prior concrete', init_entry(ctw)), ('prior concrete', init_entry(ctw, prior=True))], replay=battery_replay)
-
     # ---- D. random strategy and the factories
     layouts = LAYOUTS_QUICK if quick else LAYOUTS_THOROUGH
     known_d = open_findings(chk, ['C19.random.suggest.result_shapes', 'C19.random.declares_real_feature_counts'])
@@ -1762,14 +1876,12 @@ def main(tier):
            findings=known_d, replay=battery_replay)
     factories(chk, pv, quick)
 
-    # ---- E. determinism
-    frame_obligations(chk)
     chk.note('The symbolic results are functions of the PRNG key: jax.random.split/uniform/laplace are modelled as functions of their key, and '
              'every key consumed is shown to derive from the seed argument (randomness_only_from_seed); together with the read-frame obligations '
              'this is the "same seed, same candidates" clause. ')
     finish_conformance(chk, proc, tier)
     if not quick:
-        res = run_native(REPLAY, ['battery'], timeout=1800)
+        res = run_native(REPLAY, ['battery'], timeout=7200)
         chk.bounded_standin('C19.battery: end-to-end native runs of the real optimizer (eagle and random strategy; 5 layouts incl. feature padding; 4 score '
                             'functions incl. NaN / -inf; n_parallel None and 2), every clause of C19 re-checked by an independent predicate',
                             '%s runs' % res.get('runs'), 'violations only from recorded findings: %s' % sorted(res.get('violated', {}))
